@@ -102,8 +102,9 @@ Qed.
 
 (* The operation not closed as a single step: OStore (POST ingest-supervoxels) stores voxels without
    indexing, so the state after it is inconsistent by design until the indices follow; the bulk
-   load is closed below as a run (offline_ingest_consistent) and, onto a populated instance, as
-   store_then_index.  OSplit (SplitLabels) is covered by consistent_step under split_guard
+   load onto an empty instance is closed below as a run (offline_ingest_consistent); the two-phase
+   statement for a populated instance (store, then POST indices of the scan, restores Inv) is not
+   proved.  OSplit (SplitLabels) is covered by consistent_step under split_guard
    (Proofs.LabelMapSplit). *)
 Theorem consistent_step_partial fx n st o st' :
   N.of_nat n < 2 ^ 31 -> Inv n st ->
